@@ -21,8 +21,8 @@ func init() {
 			"parsers {observer, replacer returning 0..3 synthetic data, failing on the n-th unit}: groups logged and compared with the model's units; distinct = hash(stream, predicate/parser); " +
 			"non-trivial = the predicate skipped ≥1 and kept ≥1 packet, or the parser saw ≥2 groups",
 		Assumptions: []string{"the filtered stream is built by the harness from the same per-packet decisions", "parser errors raised while draining at end of stream are logged by the library, not returned; only errors on the streaming path are required to surface"},
-		Shards: 32,
-		Run:    runC19,
+		Shards:      32,
+		Run:         runC19,
 		Guards: func(m *mon.Merged, tier string) []string {
 			var out []string
 			need(m, &out, "skipper_runs", 1500)
